@@ -599,6 +599,15 @@ pub fn run(ctx: &mut Ctx) {
                             _ => "f64.const:4607182418800017408".to_string(),
                         });
                     }
+                    // one built function in four (without results) ends in the `end` of a construct of its own: the function's final
+                    // `end` is still to be added behind it
+                    if results.is_empty() && r.chance(1, 4) {
+                        if r.chance(1, 2) {
+                            body.extend(["block".to_string(), "nop".into(), "end".into()]);
+                        } else {
+                            body.extend(["i32.const:1".to_string(), "if".into(), "block".into(), "end".into(), "end".into()]);
+                        }
+                    }
                     let name = if r.chance(2, 3) { Some(format!("built{u}")) } else { None };
                     builts.push(Built { uid: u, params, results, locals, body, name });
                     plan.push(A::Build(builts.len() - 1));
@@ -717,6 +726,9 @@ pub fn run(ctx: &mut Ctx) {
                         let mut body: Vec<String> = vec![format!("i32.const:{}", FMARK + u as i32), "drop".into()];
                         if r.chance(1, 2) {
                             body.push("nop".into());
+                        }
+                        if r.chance(1, 3) {
+                            body.extend(["loop".to_string(), "end".into()]);
                         }
                         builts.push(Built { uid: u, params: vec![], results: vec![], locals: vec![], body, name: Some(format!("i{old}")) });
                         plan.push(A::Replace(builts.len() - 1, h, base_imp_pos[&h]));
@@ -1186,6 +1198,10 @@ fn op_of_tok<'a>(t: &str) -> Operator<'a> {
         "f32.const" => Operator::F32Const { value: wasmparser::Ieee32::from(f32::from_bits(arg.unwrap().parse().unwrap())) },
         "f64.const" => Operator::F64Const { value: wasmparser::Ieee64::from(f64::from_bits(arg.unwrap().parse().unwrap())) },
         "local.get" => Operator::LocalGet { local_index: arg.unwrap().parse().unwrap() },
+        "block" => Operator::Block { blockty: wasmparser::BlockType::Empty },
+        "loop" => Operator::Loop { blockty: wasmparser::BlockType::Empty },
+        "if" => Operator::If { blockty: wasmparser::BlockType::Empty },
+        "end" => Operator::End,
         x => panic!("harness: no operator for token {x}"),
     }
 }
